@@ -46,6 +46,9 @@ enum WinAct {
     Expire,
     /// the window is closed and another one is opened with another passcode
     CloseReopenOtherPasscode,
+    /// advance the clock to one second past the window's expiry (with a late handshake: while that
+    /// handshake is younger than the responder's own 60 s establishment timeout)
+    ExpireJust,
 }
 
 #[derive(Clone, Debug)]
@@ -60,6 +63,11 @@ struct RunSpec {
     /// a second initiator starts its own handshake concurrently
     second_initiator: bool,
     seed: u64,
+    /// the initiator starts its (first) handshake this many seconds after the window was opened
+    start_delay_s: u64,
+    /// the application polls the window's expiry (`Pase::check_comm_window_timeout`, what
+    /// `InteractionModel::run` does every second) after every step
+    poll: bool,
 }
 
 #[derive(Clone, Debug, PartialEq, Eq, Hash)]
@@ -84,6 +92,10 @@ struct Summary {
     /// sessions born after the window was replaced by one with a passcode nobody tried
     births_under_replaced_window: usize,
     window_open_at_end: bool,
+    /// session births at instants at which, by the harness's own account of the windows it opened and
+    /// closed and of the clock, no window was open
+    births_after_expiry: Vec<u64>,
+    open_after_poll: Option<String>,
     failures_at_end: u8,
     max_failures_seen: u8,
     advertised_mismatch: Option<String>,
@@ -129,9 +141,13 @@ fn build(spec: &RunSpec) -> Result<World, String> {
         let obs2 = obs.clone();
         let seed = spec.seed + k as u64 * 7;
         let passcodes = spec.passcodes.clone();
+        let start_delay_s = spec.start_delay_s;
         exec.spawn(if k == 0 { "I" } else { "I2" }, async move {
             let c = nodes::crypto(SeededRng::new(seed + 10));
             let client = async {
+                if start_delay_s > 0 {
+                    embassy_time::Timer::after(embassy_time::Duration::from_secs(start_delay_s)).await;
+                }
                 for pc in passcodes {
                     let r: Result<(), Error> = Exchange::initiate_pase(m, &c, addr_of(1), pc).await.map(|_| ());
                     let mut o = obs2.borrow_mut();
@@ -192,6 +208,8 @@ fn run(spec: &RunSpec, other_wire: Option<&[Dgram]>) -> Result<Summary, String> 
     let mut out = Summary::default();
     let clients = if spec.second_initiator { 2 } else { 1 };
     let mut known_r_sessions = 0usize;
+    // reference: the instant the window the harness opened last expires (None: no window)
+    let mut ref_expiry: Option<u64> = if spec.window_at_start { Some(START_US + WINDOW_SECS as u64 * 1_000_000) } else { None };
     loop {
         let now = vclock::now();
         if now > START_US + 900_000_000 {
@@ -226,11 +244,20 @@ fn run(spec: &RunSpec, other_wire: Option<&[Dgram]>) -> Result<Summary, String> 
                             match a {
                                 WinAct::Close => {
                                     let _ = mr.close_comm_window(&());
+                                    ref_expiry = None;
                                 }
                                 WinAct::CloseReopen => {
                                     let _ = mr.close_comm_window(&());
                                     let c = nodes::crypto(SeededRng::new(spec.seed + 77));
                                     let _ = mr.open_basic_comm_window(WINDOW_SECS, &c, &());
+                                    ref_expiry = Some(vclock::now() + WINDOW_SECS as u64 * 1_000_000);
+                                }
+                                WinAct::ExpireJust => {
+                                    let until = START_US + (WINDOW_SECS as u64 + 1) * 1_000_000;
+                                    if vclock::now() < until {
+                                        vclock::advance_to(until);
+                                    }
+                                    w.exec.run()?;
                                 }
                                 WinAct::CloseReopenOtherPasscode => {
                                     let _ = mr.close_comm_window(&());
@@ -243,6 +270,7 @@ fn run(spec: &RunSpec, other_wire: Option<&[Dgram]>) -> Result<Summary, String> 
                                         return Err(format!("harness: opening the second window failed: {:?}", e.code()));
                                     }
                                     other_window = true;
+                                    ref_expiry = Some(vclock::now() + WINDOW_SECS as u64 * 1_000_000);
                                 }
                                 WinAct::Expire => {
                                     vclock::advance_by_ms((WINDOW_SECS as u64 + 1) * 1000);
@@ -289,8 +317,23 @@ fn run(spec: &RunSpec, other_wire: Option<&[Dgram]>) -> Result<Summary, String> 
         let mr = w.r.get();
         // a session exists from the moment the device accepted the proof and keyed it (its slot may
         // still be marked reserved until the handler has sent the final status)
+        if spec.poll {
+            let r = mr.with_state(|s| {
+                let (_, _, pase) = s.verif_failsafe_and_fabrics();
+                pase.check_comm_window_timeout(|| {}, |_, _| {})
+            });
+            if let Err(e) = r {
+                return Err(format!("harness: polling the window failed: {:?}", e.code()));
+            }
+            if ref_expiry.map(|t| vclock::now() > t).unwrap_or(false) && window_open(mr) && out.open_after_poll.is_none() {
+                out.open_after_poll = Some(format!("at {} us the window that expired at {} us is still open after the expiry poll", vclock::now() - START_US, ref_expiry.unwrap() - START_US));
+            }
+        }
         let n = pase_sessions(mr).len();
         if n > known_r_sessions {
+            if !ref_expiry.map(|t| vclock::now() <= t).unwrap_or(false) {
+                out.births_after_expiry.push(vclock::now());
+            }
             out.r_session_births.push((vclock::now(), window_open(mr)));
             if other_window {
                 out.births_under_replaced_window += 1;
@@ -364,6 +407,12 @@ fn judge(spec: &RunSpec, s: &Summary) -> Vec<(String, String)> {
             v.push((format!("C02:session-created-while-no-window-is-open:{}", tag), format!("a PASE session appeared at the device at {} us with no commissioning window open", t - START_US)));
         }
     }
+    for t in &s.births_after_expiry {
+        v.push((format!("C02:session-created-after-the-window-expired-or-closed:{}", tag), format!("a PASE session appeared at the device at {} us; by then the window opened by the harness had expired or been closed", t - START_US)));
+    }
+    if let Some(m) = &s.open_after_poll {
+        v.push((format!("C02:expired-window-survives-the-expiry-poll:{}", tag), m.clone()));
+    }
     if s.births_under_replaced_window > 0 {
         v.push((format!("C02:session-for-the-passcode-of-a-window-that-was-replaced:{}", tag), format!("{} PASE session(s) appeared after the window the handshake started under was closed and another window with another passcode was opened", s.births_under_replaced_window)));
     }
@@ -409,7 +458,7 @@ fn judge(spec: &RunSpec, s: &Summary) -> Vec<(String, String)> {
 }
 
 fn spec_json(s: &RunSpec) -> Value {
-    json!({"passcodes": s.passcodes, "window_at_start": s.window_at_start, "second_initiator": s.second_initiator, "seed": s.seed,
+    json!({"passcodes": s.passcodes, "window_at_start": s.window_at_start, "second_initiator": s.second_initiator, "seed": s.seed, "start_delay_s": s.start_delay_s, "poll": s.poll,
         "target": s.target.as_ref().map(|(t, m)| json!({"from": t.from, "opcode": t.opcode, "nth": t.nth, "mutation": format!("{:?}", m)})),
         "window_action": s.window_action.as_ref().map(|(t, a)| json!({"from": t.from, "opcode": t.opcode, "nth": t.nth, "action": format!("{:?}", a)}))})
 }
@@ -423,6 +472,8 @@ fn replay(ctx: &Ctx, path: &std::path::Path) -> i32 {
         window_at_start: r["window_at_start"].as_bool().unwrap_or(true),
         second_initiator: r["second_initiator"].as_bool().unwrap_or(false),
         seed: r["seed"].as_u64().unwrap_or(100),
+        start_delay_s: r["start_delay_s"].as_u64().unwrap_or(0),
+        poll: r["poll"].as_bool().unwrap_or(false),
         target: if r["target"].is_null() { None } else { Some((tgt(&r["target"]), parse_mutn(r["target"]["mutation"].as_str().unwrap_or("")))) },
         window_action: if r["window_action"].is_null() {
             None
@@ -431,6 +482,7 @@ fn replay(ctx: &Ctx, path: &std::path::Path) -> i32 {
                 Some("CloseReopen") => WinAct::CloseReopen,
                 Some("CloseReopenOtherPasscode") => WinAct::CloseReopenOtherPasscode,
                 Some("Expire") => WinAct::Expire,
+                Some("ExpireJust") => WinAct::ExpireJust,
                 _ => WinAct::Close,
             }))
         },
@@ -491,7 +543,7 @@ pub fn run_check(ctx: &Ctx) -> i32 {
     }
     let quick = ctx.tier == Tier::Quick;
     let seed = 300 + ctx.seed;
-    let base = RunSpec { passcodes: vec![DEVICE_PASSCODE], window_at_start: true, target: None, window_action: None, second_initiator: false, seed };
+    let base = RunSpec { passcodes: vec![DEVICE_PASSCODE], window_at_start: true, target: None, window_action: None, second_initiator: false, seed, start_delay_s: 0, poll: false };
     let mut specs: Vec<RunSpec> = Vec::new();
     // (a) passcode pairs, no window, second initiator
     for pcs in [vec![DEVICE_PASSCODE], vec![DEVICE_PASSCODE - 1], vec![DEVICE_PASSCODE + 1], vec![0], vec![99_999_998], vec![DEVICE_PASSCODE - 1, DEVICE_PASSCODE], vec![1, 2, 3, DEVICE_PASSCODE]] {
@@ -537,6 +589,20 @@ pub fn run_check(ctx: &Ctx) -> i32 {
                 // crossed with the loss of each handshake datagram
                 for d in &drops {
                     specs.push(RunSpec { window_action: Some((t.clone(), a.clone())), target: Some((d.clone(), Mutn::Drop)), ..base.clone() });
+                }
+            }
+        }
+    }
+    // a handshake that starts late in the window's life, the window expiring (just) before the delivery of
+    // each of its datagrams, with and without the application's expiry poll; and the late handshake alone
+    for delay in [240u64, 280, 299] {
+        for poll in [false, true] {
+            specs.push(RunSpec { start_delay_s: delay, poll, ..base.clone() });
+            for t in &drops {
+                specs.push(RunSpec { start_delay_s: delay, poll, window_action: Some((t.clone(), WinAct::ExpireJust)), ..base.clone() });
+                if !quick {
+                    specs.push(RunSpec { start_delay_s: delay, poll, second_initiator: true, window_action: Some((t.clone(), WinAct::ExpireJust)), ..base.clone() });
+                    specs.push(RunSpec { start_delay_s: delay, poll, passcodes: vec![DEVICE_PASSCODE - 1, DEVICE_PASSCODE], window_action: Some((t.clone(), WinAct::ExpireJust)), ..base.clone() });
                 }
             }
         }
